@@ -80,7 +80,17 @@ pub fn run_c01(ctx: &Ctx) {
     run_prop(ctx, "roundtrip", shards, per, || gen::m_msg(6), judge_c01, mmsg_json);
 }
 
-pub fn replay_c01(ctx: &Ctx, _sub: &str, case: &Value) -> Judge {
+fn fuzz_model(case: &Value) -> Result<MMsg, Fail> {
+    let bytes = unhex(case.get("bytes").and_then(|b| b.as_str()).unwrap_or("")).ok_or_else(|| Fail::new("bad-replay", "bytes"))?;
+    vcore::fuzzdec::mmsg_from_bytes(&bytes).ok_or_else(|| Fail::new("bad-replay", "fuzzer input does not decode to a model message"))
+}
+
+pub fn replay_c01(ctx: &Ctx, sub: &str, case: &Value) -> Judge {
+    if sub.starts_with("fuzz-") {
+        let m = fuzz_model(case)?;
+        println!("model message: {}", abbreviate(&mmsg_json(&m)));
+        return roundtrip_core(&m);
+    }
     let m = mmsg_from_json(case).ok_or_else(|| Fail::new("bad-replay", "cannot decode case"))?;
     judge_c01(&m, &Probe { ctx, counting: false })
 }
@@ -142,7 +152,11 @@ pub fn run_c03(ctx: &Ctx) {
     run_prop(ctx, "encode", shards, per, || gen::m_msg(6), |m, p| judge_c03(m, p, builds), mmsg_json);
 }
 
-pub fn replay_c03(ctx: &Ctx, _sub: &str, case: &Value) -> Judge {
+pub fn replay_c03(ctx: &Ctx, sub: &str, case: &Value) -> Judge {
+    if sub.starts_with("fuzz-") {
+        let m = fuzz_model(case)?;
+        return judge_encoding(&m, &m.build().to_bytes());
+    }
     let m = mmsg_from_json(case).ok_or_else(|| Fail::new("bad-replay", "cannot decode case"))?;
     judge_c03(&m, &Probe { ctx, counting: false }, 32)
 }
